@@ -523,6 +523,70 @@ func (e *symEnv) evalOnEdge(v ssa.Value, pred, succ *ssa.BasicBlock) *term {
 	return e.eval(v)
 }
 
+// argConditionOf: the innermost branch condition under which control reaches succ through pred,
+// when that condition compares a value read from the request (not an error, not a keyword).
+func (e *symEnv) argConditionOf(pred, succ *ssa.BasicBlock) *term {
+	var cond ssa.Value
+	pos := true
+	if len(pred.Instrs) > 0 {
+		if iff, ok := pred.Instrs[len(pred.Instrs)-1].(*ssa.If); ok && len(pred.Succs) == 2 && pred.Succs[0] != pred.Succs[1] {
+			cond, pos = iff.Cond, pred.Succs[0] == succ
+		}
+	}
+	if cond == nil {
+		// only when pred exists solely because of one branch
+		if len(pred.Preds) != 1 {
+			return nil
+		}
+		found := false
+		for _, g := range guardsOf(pred) {
+			if g.If.Block() == pred.Preds[0] {
+				cond, pos, found = g.Cond, g.True, true
+			}
+		}
+		if !found {
+			return nil
+		}
+	}
+	bo, ok := cond.(*ssa.BinOp)
+	if !ok {
+		return nil
+	}
+	switch bo.Op {
+	case token.EQL, token.NEQ, token.LSS, token.LEQ, token.GTR, token.GEQ:
+	default:
+		return nil
+	}
+	if isNilConst(bo.X) || isNilConst(bo.Y) {
+		return nil
+	}
+	t := e.eval(cond)
+	if os.Getenv("DEBUGSYM") != "" {
+		fmt.Fprintf(os.Stderr, "argConditionOf %s: %s\n", fnName(e.fn), t.String())
+	}
+	hasNumArg := false
+	var walk func(x *term)
+	walk = func(x *term) {
+		if x == nil {
+			return
+		}
+		if k, _, ok := argOf(x); ok && (k == "int" || k == "float" || k == "num") {
+			hasNumArg = true
+		}
+		for _, a := range x.A {
+			walk(a)
+		}
+	}
+	walk(t)
+	if !hasNumArg || t.hasUnknown() {
+		return nil
+	}
+	if !pos {
+		return tOp("not", t)
+	}
+	return t
+}
+
 func constTerm(c *ssa.Const) *term {
 	if c.Value == nil {
 		if _, ok := c.Type().Underlying().(*types.Struct); ok {
@@ -581,6 +645,13 @@ func (e *symEnv) eval1(v ssa.Value) *term {
 			t := e.evalOnEdge(ed, x.Block().Preds[k], x.Block())
 			if t.K == "sym" && t.S == "loop" {
 				continue
+			}
+			// a constant chosen because of what an argument's value is (not because it is
+			// absent): "cnt == 0 -> 1" differs from "no count given -> 1"
+			if t.K == "const" {
+				if cond := e.argConditionOf(x.Block().Preds[k], x.Block()); cond != nil {
+					t = tOp("when["+cond.String()+"]", t)
+				}
 			}
 			if t.K == "op" && (t.S == "list" || t.S == "rest") {
 				isList = true
